@@ -206,7 +206,11 @@ fn serve_h2c(be: MockBackend, plan: H2Plan, streams_expected: usize) -> H2Report
                     conn_avail -= n;
                     if *sa < 0 && n > 0 {
                         rep.max_over_stream = rep.max_over_stream.max(-*sa);
-                        rep.violations.push(("h2c-backend-stream-window-exceeded".into(), format!("stream {sid}: DATA of {n} bytes leaves the stream window at {} (initial {init}, {} received)", *sa, rep.bodies.get(&sid).map(|b| b.len()).unwrap_or(0) + len)));
+                        // the known defect (Stream.window = 1<<16 shifted by the SETTINGS delta) is always
+                        // exactly one byte over on the first stream of a connection: anything larger is
+                        // a different violation
+                        let class = if -*sa == 1 { "h2c-backend-stream-window-exceeded-by-one" } else { "h2c-backend-stream-window-exceeded" };
+                        rep.violations.push((class.into(), format!("stream {sid}: DATA of {n} bytes leaves the stream window at {} (initial {init}, {} received)", *sa, rep.bodies.get(&sid).map(|b| b.len()).unwrap_or(0) + len)));
                     }
                     if conn_avail < 0 && n > 0 {
                         rep.violations.push(("h2c-backend-connection-window-exceeded".into(), format!("DATA of {n} bytes leaves the connection window at {conn_avail}")));
@@ -601,6 +605,26 @@ fn main() {
         }
     };
 
+    if std::env::var("E2E_DEBUG_CLOSE").is_ok() {
+        let be = MockBackend::listen().unwrap();
+        ctx.w.add_http_route(ctx.front, "z.test", "/", "cz", be.addr, false).unwrap();
+        let mut c = RawConn::connect(ctx.front).unwrap();
+        c.write_all(b"GET / HTTP/1.1\r\nHost: z.test\r\n\r\n", T).unwrap();
+        let mut b = be.accept(T).unwrap();
+        let _ = read_http_message(&mut b, T);
+        let with_conn_close = std::env::var("E2E_DEBUG_CLOSE").unwrap() == "header";
+        if with_conn_close {
+            b.write_all(b"HTTP/1.1 200 OK\r\nConnection: close\r\n\r\nhello", T).unwrap();
+        } else {
+            b.write_all(b"HTTP/1.1 200 OK\r\nX-A: b\r\n\r\nhello", T).unwrap();
+        }
+        std::thread::sleep(Duration::from_millis(50));
+        b.close();
+        let end = c.read_until_closed_or(Duration::from_secs(3));
+        eprintln!("client read end: {end:?}; received: {:?}", String::from_utf8_lossy(&c.received));
+        ctx.w.stop();
+        return;
+    }
     if std::env::var("E2E_DEBUG").is_ok() {
         let plan = H2Plan { init_window: Some(1 << 20), conn_bump: 1, stingy: false, drip: 100, read_max: 1 << 16, read_pause: Duration::ZERO, resp_body: pattern(3, 65536), resp_content_length: true };
         let (case, rep) = case_h1_h2c(&mut ctx, &mut rng, 200000, plan, false, &mut fails, &mut dist, "debug");
@@ -616,8 +640,8 @@ fn main() {
         let before = fails.len();
         let (case, rep) = case_h1_h2c(&mut ctx, &mut rng, 5000, plan, false, &mut fails, &mut dist, "witness-small-window");
         evaluations += 1;
-        let hit = fails[before..].iter().any(|f| f.class == "h2c-backend-stream-window-exceeded");
-        known_witnesses.push(json!({"class": "h2c-backend-stream-window-exceeded", "reproduced": hit, "case": case, "over_by": rep.max_over_stream}));
+        let hit = fails[before..].iter().any(|f| f.class == "h2c-backend-stream-window-exceeded-by-one");
+        known_witnesses.push(json!({"class": "h2c-backend-stream-window-exceeded-by-one", "reproduced": hit, "case": case, "over_by": rep.max_over_stream}));
         samples.push(json!({"case": case, "frames": rep.frames, "violations": rep.violations.len(), "over_by": rep.max_over_stream}));
     }
     // W2: RFC-default stream window (65535), large connection window, body of 70000
